@@ -12,12 +12,13 @@ from ..runner import Check
 PROPERTY = "C15"
 RULE = ("Hypothesis draws dimension 1-3, a cubic length or cuboid lengths from {1,2,0.1,3.3,18,1e-3,1e3,log-uniform}, "
         "and entries k*L+f with |k|<=1000 and f in {0, +-denormal..+-1e-17, nextafter(L,0), L, uniform}; positions "
-        "for separation_vector are in [0,L). Oracle: Fractions (result in [0,L) strictly, congruent to the input "
+        "for separation_vector are in [0,L) in three cases of four and unfolded (k*L+f, either or both operands) in "
+        "the fourth. Oracle: Fractions (result in [0,L) strictly, congruent to the input "
         "within one ulp(L), idempotent, |separation|<=L/2 and congruent to the difference, cubic==cuboid bit for "
         "bit, next_image adds exactly L). Non-trivial: an entry within 4 ulp of 0 or of a multiple of L, or |k|>=1; "
         "distinct by exact operands.")
-ASSUMPTIONS = ["box lengths are positive finite floats in [1e-3, 1e3]; positions handed to separation_vector lie in "
-               "[0, L) (they come from the global state)", "fractions.Fraction exact; float % follows C fmod"]
+ASSUMPTIONS = ["box lengths are positive finite floats in [1e-3, 1e3]; positions handed to separation_vector are finite, "
+               "folded or not (tolerance 4 ulp of the largest operand)", "fractions.Fraction exact; float % follows C fmod"]
 
 LENGTHS = [1.0, 2.0, 0.1, 3.3, 18.0, 1e-3, 1e3]
 
@@ -66,8 +67,15 @@ def separation_case(draw):
     else:
         lengths = [draw(length_strategy()) for _ in range(dim)]
     ref = [draw(inbox_strategy(L)) for L in lengths]
-    kind = draw(st.sampled_from(["any", "half", "same"]))
+    kind = draw(st.sampled_from(["any", "half", "same", "unfolded"]))
     tgt = []
+    if kind == "unfolded":
+        # positions that were not folded back into the box (many box lengths away, either operand)
+        which = draw(st.sampled_from(["tgt", "ref", "both"]))
+        if which != "tgt":
+            ref = [draw(entry_strategy(L)) for L in lengths]
+        tgt = [draw(entry_strategy(L)) if which != "ref" else draw(inbox_strategy(L)) for L in lengths]
+        return {"cubic": cubic, "lengths": lengths, "ref": ref, "tgt": tgt}
     for L, r in zip(lengths, ref):
         if kind == "half":
             t = draw(gen.near((r + L / 2.0) % L if (r + L / 2.0) % L < L else 0.0, 3))
@@ -181,7 +189,7 @@ def body_separation(rec, cubic, lengths, ref, tgt):
         d = Fraction(tgt[i]) - Fraction(ref[i])
         diff = d - Fraction(y)
         k = round(diff / Fraction(L))
-        if abs(diff - k * Fraction(L)) > 4 * Fraction(math.ulp(L)):
+        if abs(diff - k * Fraction(L)) > 4 * Fraction(math.ulp(max(L, abs(tgt[i]), abs(ref[i])))):
             rec.fail("sepvec/not-congruent", "separation %r of target %r and reference %r not congruent to the "
                                              "difference modulo %r" % (y, tgt[i], ref[i], L), args)
         nt = nt or k != 0 or abs(abs(float(d)) - L / 2.0) <= 4 * math.ulp(L)
@@ -189,7 +197,9 @@ def body_separation(rec, cubic, lengths, ref, tgt):
         z = other.separation_vector(list(ref), list(tgt))
         if list(z) != list(sep):
             rec.fail("sepvec/cubic-vs-cuboid", "cubic %r, cuboid %r" % (sep, z), args)
-    rec.case("wrapped-or-half" if nt else "direct", (tuple(lengths), tuple(ref), tuple(tgt)), nt, args)
+    unfolded = any(not 0.0 <= q < L for q, L in zip(list(ref) + list(tgt), list(lengths) * 2))
+    rec.case("unfolded" if unfolded else ("wrapped-or-half" if nt else "direct"),
+             (tuple(lengths), tuple(ref), tuple(tgt)), nt, args)
 
 
 def _unwrap(f):
